@@ -29,6 +29,8 @@ type World struct {
 	ISpecs        map[string]*Contract // "pkgpath.Iface.Method"
 	SpecFns       map[string]*SpecFunc // "pkgpath.name" and bare name
 	Ghosts        map[string]*GhostVar
+	MissingTargets []string
+	BaseLocals    map[string]map[string]string // function -> local name -> type, as recorded with the baseline
 	Lemmas        []*Lemma
 	Axioms        []*Axiom
 	Trusted       map[string]bool // names of trusted stdlib handlers actually used
